@@ -10,6 +10,8 @@ SRC="$1"; CRATE="$2"; DEMO="$3"; shift 3
 W=/tmp/sa/confirm
 export CARGO_TARGET_DIR=/tmp/sa/confirm-target CARGO_NET_OFFLINE=true
 reset() { git -C $W checkout -q -- . ; git -C $W clean -fdq -- crates; }
+# the scratch worktree is created on demand (its first build is cold: ~10 min for one crate's tests)
+if [ ! -d "$W" ]; then mkdir -p /tmp/sa; git -C /repo worktree add --detach "$W" HEAD >/dev/null 2>&1 || { echo "CONFIRM: cannot create $W"; exit 2; }; fi
 reset
 git -C $W checkout -q --detach "$(git -C /repo rev-parse HEAD)"
 git -C $W apply "$SRC/seeded/demo.diff" || { echo "CONFIRM: demo.diff does not apply"; exit 2; }
